@@ -208,18 +208,18 @@ Require Import Coq.Strings.String.
 Open Scope string_scope.
 Definition expected_sites : list (string * string * string) := [
   (* Finish: an error of phase W removes the temps and returns *)
-  ("Finish", "os.Remove", "iferr/range:finishedShards");
+  ("Finish", "os.Remove", "iferr/range");
   (* delta: one sidecar temp per old shard *)
-  ("Finish", "JsonMarshalRepoMetaTemp", "if/range:oldShards");
+  ("Finish", "JsonMarshalRepoMetaTemp", "if/range");
   (* non-delta: IndexFilePaths error (not modelled: Stat never fails) *)
-  ("Finish", "buildError=", "if/range:oldShards/iferr");
+  ("Finish", "buildError=", "if/range/iferr");
   (* phase R, then phase D — this order is what [finish_ops] = rename_ops ++ delete_ops encodes *)
-  ("Finish", "os.Rename", "range:artifactPaths");
-  ("Finish", "buildError=", "range:artifactPaths/iferr");
-  ("Finish", "SetTombstone", "range:toDelete/if");
-  ("Finish", "buildError=", "range:toDelete/if/iferr");     (* guarded: [delete_err_fold false] *)
-  ("Finish", "os.Remove", "range:toDelete");
-  ("Finish", "buildError=", "range:toDelete/iferr");
+  ("Finish", "os.Rename", "range");
+  ("Finish", "buildError=", "range/iferr");
+  ("Finish", "SetTombstone", "range/if");
+  ("Finish", "buildError=", "range/if/iferr");     (* guarded: [delete_err_fold false] *)
+  ("Finish", "os.Remove", "range");
+  ("Finish", "buildError=", "range/iferr");
   (* writeShard: everything happens on the CreateTemp handle ([write_shard]) *)
   ("writeShard", "os.MkdirAll", "");
   ("writeShard", "os.CreateTemp", "");
